@@ -84,7 +84,11 @@ func (e *Engine) verifyUnit(u unit) *FuncResult {
 // contract instead of its own (refinement); loops always use the own contract.
 func (e *Engine) verifyFunc(key string, against *FuncContract, prefix string) (res *FuncResult) {
 	res = &FuncResult{Key: key}
-	fn := e.prog.Funcs[key]
+	fkey := key
+	if i := strings.Index(key, "#"); i >= 0 {
+		fkey = key[:i] // alternative contract of the same body
+	}
+	fn := e.prog.Funcs[fkey]
 	own := e.cs.Funcs[key]
 	if own == nil && fn != nil && fn.Name() == "init" {
 		// the init unit proves the package's `axiom` declarations as postconditions of package initialisation
